@@ -41,6 +41,21 @@ def arity_programs():
             argv = [vals[i % 3] for i in range(na)]
             retv = None if nr == 0 else (vals[0] if nr == 1 else tuple(vals[i % 3] for i in range(nr)))
             out.append(('arity%d-%d' % (na, nr), {'tns': TNS, 'classes': [], 'services': [{'n': 'S', 'methods': [m]}]}, argv, retv))
+    # the bare styles: out_bare with 0..3 arguments, bare with 0..1 (complex) argument; no / primitive / complex result
+    P = {'n': 'P', 'fields': [['x', I], ['s', U]]}
+    Pt = ['c', 'P', {}]
+    pv = Obj('P', x=3, s='ess')
+    for style in ('out_bare', 'bare'):
+        for na in (range(0, 4) if style == 'out_bare' else range(0, 2)):
+            for rname, rt, rv in (('none', None, None), ('prim', I, 7), ('text', U, 'text é'), ('complex', Pt, pv)):
+                if style == 'bare':
+                    args = [['a0', Pt]][:na]
+                    argv = [pv][:na]
+                else:
+                    args = [['a%d' % i, types[i % 3]] for i in range(na)]
+                    argv = [vals[i % 3] for i in range(na)]
+                m = {'n': 'm', 'args': args, 'ret': rt, 'kw': {'_body_style': style}}
+                out.append(('%s%d-%s' % (style, na, rname), {'tns': TNS, 'classes': [P], 'services': [{'n': 'S', 'methods': [m]}]}, argv, rv))
     return out
 
 
